@@ -27,6 +27,7 @@ type c14Req struct {
 	Instance  string    `json:"instance"`
 	Histories string    `json:"histories"`
 	NWitness  int       `json:"nwitness"`
+	FinalLen  int       `json:"final_len"` // witness: truncate the final polynomial (response comparison only)
 	Shard     int       `json:"shard"`
 }
 
@@ -94,6 +95,13 @@ func c14(raw json.RawMessage, resp *drv.Response) error {
 		cands = append(cands, honest)
 		for _, w := range cands {
 			l := data.Load(inst, 1)
+			short := req.FinalLen > 0 && req.FinalLen < len(l.PWPI.Proof.OpeningProof.FinalPoly.Coeffs)
+			if short {
+				// a final polynomial that leaves the sponge's input block partly filled when the witness is observed: only the
+				// response (the transcript) is compared, the truncated proof itself is of course not a valid one
+				cs := l.PWPI.Proof.OpeningProof.FinalPoly.Coeffs
+				l.PWPI.Proof.OpeningProof.FinalPoly.Coeffs = append(cs[:0:0], cs[:req.FinalLen]...)
+			}
 			l.PWPI.Proof.OpeningProof.PowWitness = gl.NewVariable(new(big.Int).Set(w))
 			m, _ := leafValues(l, o)
 			pis := []*big.Int{}
@@ -117,9 +125,12 @@ func c14(raw json.RawMessage, resp *drv.Response) error {
 					gotResp = got.vals[i]
 				}
 			}
-			resp.Count(fmt.Sprintf("powwitness/%s/%s", req.Instance, w), false)
+			resp.Count(fmt.Sprintf("powwitness/%s/%d/%s", req.Instance, req.FinalLen, w), false)
 			if wantResp == nil || gotResp == nil || wantResp.Cmp(gotResp) != 0 {
 				resp.Violate("c14/witness/response-mismatch", fmt.Sprintf("%s: witness %s: response %v in the code, %v by the reference transcript", req.Instance, w, gotResp, wantResp), map[string]any{"witness": w.String()})
+				continue
+			}
+			if short {
 				continue
 			}
 			cfg := &engine.Config{Mode: engine.Native}
